@@ -171,6 +171,13 @@ func c19Gen(r *Rng, i int) c19Case {
 // global child log, the observed capabilities and a predicate failure ("" = ok).
 func c19Run(c *c19Case) (in []Ev, glog []Ev, oc [2]bool, fail string) {
 	log := &Log{}
+	// "a multi reporter with no children accepts all calls": a panic of the library is a failing input
+	defer func() {
+		if p := recover(); p != nil {
+			glog = log.Snapshot()
+			fail = fmt.Sprintf("a call on the multi reporter (%d children, %d calls made so far) panicked: %v", len(c.Caps), len(in), p)
+		}
+	}()
 	n := len(c.Caps)
 	var expect []Ev // what each child must see, in order (direct predicate)
 	if !c.Cached {
